@@ -25,8 +25,8 @@ def gen_sixel():
     tr = fn_body(s, 'translate_sixel_to_pixel')
     m1 = re.search(r"if ch < '(.)' \{", tr)
     m2 = re.search(r"let mask = ch as u8 - b'(.)';", tr)
-    m3 = re.search(r'let y_pos = self\.sixel_cursor\.y \* (\d+);', tr)
-    m4 = re.search(r'let mut last_line = y_pos \+ (\d+);', tr)
+    m3 = re.search(r'let y_pos = self\.sixel_cursor\.y\.checked_mul\((\d+)\)\.ok_or\(ParserError::InvalidPictureSize\)\?;', tr)
+    m4 = re.search(r'let mut last_line = y_pos\.checked_add\((\d+)\)\.ok_or\(ParserError::InvalidPictureSize\)\?;', tr)
     m5 = re.search(r'for i in 0\.\.(\d+) \{', tr)
     m6 = re.search(r'let offset = x_pos as usize \* (\d+);', tr)
     m7 = re.search(r'cur_line\.resize\(\(x_pos as usize \+ 1\) \* (\d+), 0\)', tr)
@@ -39,6 +39,13 @@ def gen_sixel():
     if not m8:
         raise ExtractError('parse_sixel_data: ignore threshold not found')
     ctrl = re.findall(r"^\s*'(.)' => \{", data, re.M)
+    # the cursor arithmetic is checked: overflow is an error, not a panic (model: `Err.invalidPictureSize`)
+    if 'self.sixel_cursor.y = self.sixel_cursor.y.checked_add(1).ok_or(ParserError::InvalidPictureSize)?;' not in data:
+        raise ExtractError("parse_sixel_data: the '-' arm no longer uses checked_add")
+    if 'self.sixel_cursor.x = self.sixel_cursor.x.checked_add(1).ok_or(ParserError::InvalidPictureSize)?;' not in tr:
+        raise ExtractError('translate_sixel_to_pixel: the column counter no longer uses checked_add')
+    if re.search(r'sixel_cursor\.[xy] \+= |sixel_cursor\.[xy] \* ', s):
+        raise ExtractError('sixel_mod.rs: unchecked arithmetic on the sixel cursor')
     ansi = src('src/parsers/ansi/mod.rs')
     m9 = re.search(r'pub fn parse_next_number\(x: i32, ch: u8\) -> i32 \{\s*(.*?)\s*\}', ansi, re.S)
     if not m9:
@@ -47,6 +54,47 @@ def gen_sixel():
     m10 = re.search(r'pub fn update_sixel_threads\(&mut self\)[^{]*\{(.*?)\n    \}', buf, re.S)
     if not m10:
         raise ExtractError('update_sixel_threads not found')
+    # ---- file-loading path (src/formats/mod.rs) and the DCS hand-off (src/parsers/ansi/dcs.rs)
+    fm = src('src/formats/mod.rs')
+    m11 = re.search(r'// transform sixels to layers\n(.*?)\n\s*// crop last empty line', fm, re.S)
+    if not m11:
+        raise ExtractError('parse_with_parser: sixel-to-layer section not found')
+    dcs = src('src/parsers/ansi/dcs.rs')
+    m12 = re.search(r'let vertical_scale = match self\.parsed_numbers\.first\(\) \{(.*?)\n\s*\};', dcs, re.S)
+    if not m12:
+        raise ExtractError('execute_dcs: vertical_scale table not found')
+    vs_table, vs_none, vs_other = [], None, None
+    for arm in re.finditer(r'^\s*(.+?) => (\d+),\s*$', m12.group(1), re.M):
+        pat, val = arm.group(1).strip(), int(arm.group(2))
+        if pat == '_':
+            vs_other = val
+            continue
+        alts = [a.strip() for a in pat.split('|')]
+        keys = []
+        i = 0
+        while i < len(alts):
+            a = alts[i]
+            if a == 'None':
+                vs_none = val
+            elif a.startswith('Some('):
+                # Some(0 | 1 | 5 | 6) was split at the inner bars as well: collect up to the closing parenthesis
+                grp = [a[5:]]
+                while not grp[-1].endswith(')'):
+                    i += 1
+                    grp.append(alts[i])
+                grp[-1] = grp[-1][:-1]
+                keys += [int(g) for g in grp]
+            else:
+                raise ExtractError(f'execute_dcs: unexpected vertical_scale pattern {pat!r}')
+            i += 1
+        if keys:
+            vs_table.append((keys, val))
+    if vs_none is None or vs_other is None or not vs_table:
+        raise ExtractError('execute_dcs: vertical_scale table incomplete')
+    if not re.search(r"starts_with\('q'\)", dcs) or 'Sixel::parse_from(p, 1, vertical_scale, bg_color, &dcs_string[i + 1..])' not in dcs:
+        raise ExtractError('execute_dcs: sixel hand-off changed')
+    if 'let p = caret.get_position();' not in dcs:
+        raise ExtractError('execute_dcs: the sixel position is no longer the caret position')
     out = [HEADER, 'namespace IcyVerif.Gen.Sixel\n']
     out.append(f'/-- `DOS_DEFAULT_PALETTE.len()` = size of `Palette::default()` -/\ndef defaultPalLen : Nat := {pal_len}\n')
     out.append(f"/-- `'{m1.group(1)}'`: first data character / mask offset -/\ndef firstData : Nat := {ord(m1.group(1))}\n")
@@ -55,8 +103,17 @@ def gen_sixel():
     out.append(f'/-- characters above this code point are ignored by `parse_sixel_data` -/\ndef ignoreAbove : Nat := {int(m8.group(1), 16)}\n')
     out.append('/-- control characters of `parse_sixel_data`, in match order -/\ndef controlChars : List Nat := [' +
                ', '.join(str(ord(c)) for c in ctrl) + ']\n')
-    for n, t in [('parse_next_number', m9.group(1)), ('update_sixel_threads', m10.group(1))]:
-        out.append(f'def src_{n} : String := {json.dumps(re.sub(chr(92) + "s+", " ", t).strip())}\n')
+    out.append(f'def src_parse_next_number : String := {json.dumps(re.sub(chr(92) + "s+", " ", m9.group(1)).strip())}\n')
+    ulines = [ln.strip() for ln in m10.group(1).split('\n') if ln.strip()]
+    out.append('/-- body of `Buffer::update_sixel_threads`, line by line -/\n')
+    out.append('def src_update_sixel_threads : List String := [\n  ' + ',\n  '.join(json.dumps(ln) for ln in ulines) + ']\n')
+    out.append('/-- the join loop and the sixel-to-layer loop of `parse_with_parser` -/\n')
+    lines = [ln.strip() for ln in m11.group(1).split('\n') if ln.strip()]
+    out.append('def src_sixel_to_layers : List String := [\n  ' + ',\n  '.join(json.dumps(ln) for ln in lines) + ']\n')
+    out.append('/-- `execute_dcs`: first DCS parameter -> `vertical_scale` (arms `Some(a | b …) => v`) -/\n')
+    out.append('def vscaleTable : List (List Nat × Nat) := [' +
+               ', '.join('([' + ', '.join(map(str, k)) + f'], {v})' for k, v in vs_table) + ']\n')
+    out.append(f'def vscaleNone : Nat := {vs_none}\ndef vscaleOther : Nat := {vs_other}\n')
     out.append('end IcyVerif.Gen.Sixel\n')
     return 'Sixel.lean', ''.join(out)
 
